@@ -136,3 +136,11 @@ Theorem C04_lex_ws_irrelevant : forall plus src1 src2,
     map kv ts1 = map kv ts2.
 Proof. exact lex_ws_irrelevant. Qed.
 Print Assumptions C04_lex_ws_irrelevant.
+
+(* line and column as well: a token's position is the one reached by scanning
+   the text in front of it (adv_str: byte offset, line feeds, characters since
+   the last line feed) — for C07 *)
+Theorem C04_lex_positions : forall plus src ts f,
+  lex_all plus src = (ts, f) -> Forall (tok_pos_ok src) ts.
+Proof. exact lex_positions. Qed.
+Print Assumptions C04_lex_positions.
